@@ -187,4 +187,62 @@ theorem fatwf_preserved_img_truncate (s : DiskSlice) (hs : SliceInv S0 s) (c fue
   exact ⟨fatWf_truncate hw hch e2 e3 e4, e5⟩
 
 end programs
+
+/-! ## the statements are not vacuous: a concrete FAT16 image -/
+namespace Ex
+
+/-- a miniature geometry (kept tiny so that the kernel can evaluate runs): 32-byte sectors, two reserved sectors, two
+    mirrored FAT copies of one sector (16 entries) each at bytes 64 and 96, 6 data clusters; status byte at 0x25 -/
+def fs16 : FsState :=
+  { fatType := .fat16, bps := 32, spc := 1, reserved := 2, fats := 2, spf := 1, totalClusters := 6,
+    firstDataSector := 5, rootEntries := 1, rootDirSectors := 1 }
+
+/-- the example table of `C03fat` (chains 2→3, 5→7; clusters 4, 6 free) in both FAT copies of a 512-byte image -/
+def img0 : Img := ((Img.empty 512).write 64 C03fat.exTab.toList).write 96 C03fat.exTab.toList
+
+def dev : Dev := { img := img0, fs := fs16 }
+
+theorem dev_ok : FatDev (fatSliceOf fs16) dev :=
+  ⟨Img.wf_write _ (Img.wf_write _ (Img.wf_empty _) _ _) _ _, by decide, by decide, by decide, by decide⟩
+
+theorem table_ok : TableOk .fat16 (imgFatBytes fs16 img0) 6 :=
+  tableOk_img fs16 img0 6 (by decide) (by decide) (by decide)
+
+/-- the image's table is the example table -/
+example : (List.range 8).map (imgTable fs16 img0) =
+    [.eoc, .eoc, .data 3, .eoc, .free, .data 7, .free, .eoc] := by decide +kernel
+
+/-- one `alloc_cluster(prev = 7, hint = 7)` through the mirrored FAT slice, evaluated: it returns cluster 4, … -/
+example : (run (Table.allocCluster DiskSlice.strm .fat16 (fatSliceOf fs16) (some 7) (some 7) 6) dev).1.toOption.map
+    (·.1) = some 4 := by decide +kernel
+
+/-- … which is what the view-level allocator finds in the image's table, … -/
+example : allocFindV (imgTable fs16 img0) (some 7) 6 = some 4 := by decide +kernel
+
+/-- … afterwards the image's table is the point update `7 ↦ Data 4, 4 ↦ EOC` of the table before, … -/
+example : (List.range 8).map (imgTable fs16
+      (run (Table.allocCluster DiskSlice.strm .fat16 (fatSliceOf fs16) (some 7) (some 7) 6) dev).2.img) =
+    [.eoc, .eoc, .data 3, .eoc, .eoc, .data 7, .free, .data 4] := by decide +kernel
+
+example : (List.range 8).map (allocLinkV (imgTable fs16 img0) (some 7) 4) =
+    [.eoc, .eoc, .data 3, .eoc, .eoc, .data 7, .free, .data 4] := by decide +kernel
+
+/-- … both FAT copies hold the same bytes, the status byte 0x25 was set to "dirty" (by `FsIoAdapter`, before the first
+    FAT write), and the bytes before and after the FAT area are untouched -/
+example : (run (Table.allocCluster DiskSlice.strm .fat16 (fatSliceOf fs16) (some 7) (some 7) 6) dev).2.img.read 64 32 =
+    (run (Table.allocCluster DiskSlice.strm .fat16 (fatSliceOf fs16) (some 7) (some 7) 6) dev).2.img.read 96 32 := by
+  decide +kernel
+
+example : (run (Table.allocCluster DiskSlice.strm .fat16 (fatSliceOf fs16) (some 7) (some 7) 6) dev).2.img.getByte 0x25 = 1 ∧
+    img0.getByte 0x25 = 0 := by decide +kernel
+
+example : (run (Table.allocCluster DiskSlice.strm .fat16 (fatSliceOf fs16) (some 7) (some 7) 6) dev).2.img.read 128 32 =
+    img0.read 128 32 := by decide +kernel
+
+/-- the hypotheses of `alloc_image` / `fatwf_preserved_img_alloc` hold of the example -/
+example : FatDev (fatSliceOf fs16) dev ∧ TableOk .fat16 (imgFatBytes fs16 dev.img) 6 ∧
+    SliceInv (fatSliceOf fs16) (fatSliceOf fs16) ∧ imgTable fs16 dev.img 7 = .eoc :=
+  ⟨dev_ok, table_ok, SliceInv.self (by decide), by decide +kernel⟩
+
+end Ex
 end FatVerif.C03img
